@@ -796,6 +796,13 @@ class MultiUserChannelMatrix:  # pylint: disable=R0902
             # matrix has the same dimension as the
             # self._big_H_no_pathloss matrix and we are performing
             # element-wise multiplication here.
+            # The number of antennas of the users may have changed since
+            # set_pathloss was called -> expand the path loss again.
+            self._pathloss_big_matrix \
+                = MultiUserChannelMatrix._from_small_matrix_to_big_matrix(
+                    self._pathloss_matrix, self._Nr, self._Nt,
+                    self._pathloss_matrix.shape[0],
+                    self._pathloss_matrix.shape[1])
             # noinspection PyTypeChecker
             self._big_H_with_pathloss = (self._big_H_no_pathloss *
                                          np.sqrt(self._pathloss_big_matrix))
